@@ -67,7 +67,9 @@ func mbWraps3(th bool) []mbWrap3 {
 	// two wrappers stacked
 	s1, s2 := model3d.XYZ(1, -2, 0.5), model3d.XYZ(-3, 1, 1)
 	out = append(out, mbWrap3{"VecScaleMetaball(-3,1,1) of VecScaleMetaball(1,-2,0.5)",
-		func(m model3d.Metaball) model3d.Metaball { return model3d.VecScaleMetaball(model3d.VecScaleMetaball(m, s1), s2) },
+		func(m model3d.Metaball) model3d.Metaball {
+			return model3d.VecScaleMetaball(model3d.VecScaleMetaball(m, s1), s2)
+		},
 		func(c c3) c3 { return c.Mul(s1).Mul(s2) }, [3]float64{3, 2, 0.5}})
 	out = append(out, mbWrap3{"TranslateMetaball of VecScaleMetaball(1,1,-2)",
 		func(m model3d.Metaball) model3d.Metaball {
